@@ -146,6 +146,25 @@ def run_property(pid, tier="quick", repo_root=None, jobs=None):
                 ob["unsat"] += 1
             elif r["status"] == "sat":
                 ob["sat"].append(r)
+            elif r["status"] == "sat-abstract":
+                ob.setdefault("candidates", []).append(r)
+            else:
+                ob["unknown"].append(r)
+    # candidates refuted only after abstraction: a violation iff the native replay reproduces
+    for ob in obligations.values():
+        enum = [r for r in ob["unknown"] if r.get("replay")]
+        if enum:
+            ob["unknown"] = [r for r in ob["unknown"] if not r.get("replay")]
+            ob.setdefault("candidates", []).extend(enum[:1])      # one native search per obligation is enough
+            for r in enum[1:]:
+                r["replay"] = None
+                ob["unknown"].append(r)
+        for r in ob.get("candidates", []):
+            rp = r.get("replay")
+            res = run_harness(rp["harness"], rp["inputs"], repo_root) if rp else {"reproduced": False}
+            r["replay_result"] = res
+            if res.get("reproduced"):
+                ob["sat"].append(r)
             else:
                 ob["unknown"].append(r)
     for e in extra:
